@@ -327,7 +327,7 @@ def record_analysis(spec):
                 for j in idx:
                     ph = -2 * math.pi * float(r.f[j]) * d / fs
                     hh = r.Hxy[j]
-                    ev.append({"t": "delay", "d": d, "L": int(r.L[j]), "h": [qc(hh.real), qc(hh.imag)], "cp": qc(math.cos(ph)), "sp": qc(math.sin(ph)), "tight": 0})
+                    ev.append({"t": "delay", "d": d, "L": int(r.L[j]), "h": [qc(hh.real), qc(hh.imag)], "cp": qc(math.cos(ph)), "sp": qc(math.sin(ph)), "tight": 0, "K": int(r.K[j])})
             elif kind == "delaysingle":
                 # single-bin requests by resolution (fs/fres not an integer) on a long white record delayed by d = L/32 samples:
                 # with K > 3000 segments the phase scatter is sqrt(d/(L K)) < 0.0035 rad, and for a symmetric window the expected
@@ -346,6 +346,6 @@ def record_analysis(spec):
                     ph = -2 * math.pi * float(r.f[0]) * d / fs
                     hh = r.Hxy[0]
                     ev.append({"t": "delay", "d": d, "L": int(r.L[0]), "h": [qc(hh.real), qc(hh.imag)], "cp": qc(math.cos(ph)), "sp": qc(math.sin(ph)),
-                               "tight": int(int(r.K[0]) >= 3000 and int(r.L[0]) >= 32 * d)})
+                               "tight": int(int(r.K[0]) >= 3000 and int(r.L[0]) >= 32 * d), "K": int(r.K[0])})
     meta = dict(spec, nf=nf)
     return {"meta": meta, "c": {"nf": nf}, "ev": ev}
